@@ -2,7 +2,7 @@
 import itertools
 
 PID = "C16"
-CASE_LIMIT = {"C16": 15, "C16inv": 15}   # seconds: these cases are function calls, not sessions
+CASE_LIMIT = {"C16": 45, "C16inv": 45}   # seconds: these cases are function calls, not sessions
 SUBS = ["C16", "C16inv", "C16e2e", "C16res"]
 PARALLEL = {"C16e2e": 6, "C16res": 6}
 RULE = ("end to end (exhaustive): Funcs taking a pointer, a map and a slice, each as value / typed nil / untyped nil, and Funcs "
